@@ -28,7 +28,18 @@ META = {
                   "sound), not proved of mouette. UnionFind enters as the abstract partition it refines (C20); Python's stable "
                   "list.sort, deque and set semantics; for weights='length' the float edge lengths are order-isomorphic to the "
                   "integer squared lengths given to the model (lattice coordinates). Crashes inside a shard are re-run alone, "
-                  "counted in the evidence, and fail the run beyond 2%.",
+                  "counted in the evidence, and fail the run beyond 2%. "
+                  "Deliberately left free (neither oracle nor checkers constrain it): the exception class and message of a "
+                  "refusal (a starting element that is not an element may be refused with anything; a negative index may "
+                  "instead be answered with the correct tree of element n+index); which of several breadth-first trees / "
+                  "minimum forests is returned (tie-breaking, neighbour and sort order); the order of each children list, of "
+                  "the edge lists, of the trees inside a forest and of forest.edges / forest.traverse across trees; the order "
+                  "of siblings in a traversal (only: each element once, parents first, BFS level by level, DFS a pre-order); "
+                  "how an object stores its exclusion set, what obj() returns, forest[k]; warnings, log output, extra "
+                  "attributes, numpy vs python integers in the tables; last-bit differences of float weights (tolerance "
+                  "1e-9(1+|x|)). The kernel-evaluated correspondence is stricter in one place (forest roots are compared with "
+                  "the model's, i.e. least element of each component first): a change there is reported as unproved "
+                  "(no-failing-input-found), never as a concrete violation.",
 }
 
 HEADER = """From Coq Require Import ZArith List Bool Arith.
@@ -463,7 +474,9 @@ def expand_sessions(cases, obs):
                 if r.get("skipped"):
                     continue
                 cc = dict(current[st["obj"]])
-                cc.update(excl=r["update"]["excl"], calls=1, omit_optional=False, what=cc["what"] + "+reconfigured")
+                cc.update(calls=1, omit_optional=False, what=cc["what"] + "+reconfigured")
+                if "excl" in r["update"]:
+                    cc["excl"] = r["update"]["excl"]
                 if "root" in r["update"]:
                     cc["root"] = r["update"]["root"]
                 current[st["obj"]] = cc
@@ -772,7 +785,16 @@ def oracle(case, res):
     elif case["op"] in ("tree", "kruskal"):
         bad_root = not (0 <= case["root"] < n_el)
         if bad_root:
-            return None if res["err"] is not None else "a root that is not an element was accepted"
+            if res["err"] is not None:
+                return None                      # refused: legitimate, whatever the exception class / message
+            if -n_el <= case["root"] < 0:
+                # accepted as Python's negative index: fine if it IS the tree of element n + root
+                norm = lambda x: x + n_el if isinstance(x, int) and x < 0 else x
+                res2 = dict(res, root=norm(res.get("root")), bfs=[[norm(a), norm(b2)] for a, b2 in res["bfs"]],
+                            dfs=[[norm(a), norm(b2)] for a, b2 in res["dfs"]])
+                m = oracle(dict(case, root=case["root"] + n_el), res2)
+                return None if m is None else "a negative starting element was accepted but the answer is not the tree of element %d: %s" % (case["root"] + n_el, m)
+            return "a root that is not an element was accepted"
         if res["err"] is not None:
             return "valid root rejected with " + res["err"]
         if res.get("root") != case["root"]:
@@ -787,7 +809,7 @@ def oracle(case, res):
         ncomp = len(set(comp.values()))
         if res["n_trees"] != ncomp or len(res["roots"]) != ncomp or len(res["trees"]) != ncomp:
             return "%d trees / %d roots for %d connected components" % (res["n_trees"], len(res["roots"]), ncomp)
-        if res["roots"] != res["tree_roots"]:
+        if sorted(res["roots"]) != sorted(res["tree_roots"]):
             return "forest.roots differs from the roots of forest.trees"
         if len({comp[r] for r in res["roots"]}) != ncomp:
             return "two roots in the same component"
@@ -800,11 +822,17 @@ def oracle(case, res):
                 cover[a] = cover.get(a, 0) + 1
         if any(cover.get(v, 0) != 1 for v in adj):
             return "elements not covered exactly once: %s" % [v for v in adj if cover.get(v, 0) != 1]
-        if [tuple(e) for e in res["edges"]] != [tuple(e) for t in res["trees"] for e in t["edges"]]:
-            return "forest.edges is not the concatenation of the trees' edges"
+        # forest.edges / forest.traverse: the edges / visits of the trees, each once (their order across trees is free)
+        if sorted(tuple(e) for e in res["edges"]) != sorted(tuple(e) for t in res["trees"] for e in t["edges"]):
+            return "forest.edges is not the union of the trees' edges (each once)"
         for order in ("bfs", "dfs"):
-            if [tuple(x) for x in res[order]] != [tuple(x) for t in res["trees"] for x in t[order]]:
-                return "forest.traverse(%s) is not the concatenation of the trees' traversals" % order
+            if sorted((tuple(x) for x in res[order]), key=repr) != sorted((tuple(x) for t in res["trees"] for x in t[order]), key=repr):
+                return "forest.traverse(%s) does not visit what the trees' traversals visit, each element once" % order
+            seen_f = set()
+            for a, b2 in res[order]:
+                if b2 is not None and b2 not in seen_f:
+                    return "forest.traverse(%s) yields %d before its parent %d" % (order, a, b2)
+                seen_f.add(a)
         return None
     # ---- kruskal
     n = n_el
@@ -993,7 +1021,7 @@ def shrink_session(case, msg):
 
 
 SLUGS = [("implementation crashed", "crash"), ("reading the public tables twice", "unstable-reads"),
-         ("a root that is not an element was accepted", "bad-root-accepted"), ("valid root rejected", "valid-root-rejected"),
+         ("a root that is not an element was accepted", "bad-root-accepted"), ("a negative starting element", "bad-root-accepted"), ("valid root rejected", "valid-root-rejected"),
          ("no starting element given", "drawn-root"), ("the tree is rooted at", "wrong-root"), ("parent/children tables have the wrong length", "table-length"),
          ("the root has a parent", "root-has-parent"), ("reached element", "reached-without-parent"),
          ("tree edge", "inadmissible-edge"), ("parents of", "cycle-or-dangling"), ("is at depth", "depth-not-hop-distance"),
